@@ -219,6 +219,28 @@ def gen_primkat(ctx):
     return "".join(out)
 
 
+def gen_neon_port(ctx):
+    """textual port of the Neon engine's source onto emulated intrinsics (harness/src/neon_emul.rs)"""
+    src = open("/repo/src/engine/engine_neon.rs").read()
+    s = src
+    if "use std::arch::aarch64::*;" not in s or "use crate::engine::{" not in s:
+        raise RuntimeError("engine_neon.rs no longer has the expected use lines: port must be revised")
+    s = s.replace("use std::arch::aarch64::*;", "use crate::neon_emul::*;")
+    s = s.replace("use crate::engine::{", "use reed_solomon_simd::engine::{", 1)
+    s = re.sub(r'\n\s*#\[target_feature\(enable = "neon"\)\]', "", s)
+    s = re.sub(r'\n\s*#\[cfg\(feature = "verif-hooks"\)\]\n\s*crate::verif_hooks::trace_isa\(crate::verif_hooks::ISA_NEON\);\n', "\n", s)
+    s += """
+impl Neon {
+    /// engine over the given tables (added by the port)
+    pub fn verif_with_tables(mul128: &'static Mul128, skew: &'static Skew) -> Self {
+        Self { mul128, skew }
+    }
+}
+"""
+    return ("// GENERATED on every run: textual port of /repo/src/engine/engine_neon.rs (only `use` lines and attributes rewritten)\n"
+            "#![allow(clippy::all, unused_unsafe, rustdoc::broken_intra_doc_links)]\n" + s)
+
+
 def scan_harnesses():
     """all proof harnesses declared in harness/src/*.rs and gen/*.rs: [(module path, fn)]"""
     found = []
@@ -249,7 +271,7 @@ def gen_dispatch(extra=()):
 
 def generate(ctx):
     os.makedirs(GEN_DIR, exist_ok=True)
-    mods = {"tables": gen_tables(ctx), "spec": gen_spec(ctx), "gmat": gen_gmat(ctx), "primkat": gen_primkat(ctx)}
+    mods = {"tables": gen_tables(ctx), "spec": gen_spec(ctx), "gmat": gen_gmat(ctx), "primkat": gen_primkat(ctx), "neon_port": gen_neon_port(ctx)}
     import families
     for name in families.FAMILIES:
         mods[name] = families.render(name)
